@@ -126,6 +126,14 @@ EDITS = [
     ('m-fifo-eviction-iter-then-next-on-one-line', ['C16'], 'violation', [(UT,
         "        c.popitem()     # drops the most recent entry, as before, without iterating a shared dict\n",
         "        c.pop(next(iter(c)), None)\n")]),
+    # a builder that claims the work with a non-blocking lock while late-comers poll with time.sleep(): correct,
+    # but a simulator that lets the baton holder sleep for real (everybody else parked) would spin to the step cap
+    ('nc-sportshall-one-builder-others-poll-with-sleep', ['C16'], 'silent', [(SP,
+        "from decimal import Decimal\nfrom math import floor, ceil\n",
+        "import time, threading\nfrom decimal import Decimal\nfrom math import floor, ceil\n"),
+        (SP, "_DB = None\n\ndef sportshall_score(",
+             "_DB = None\n_DB_CLAIM = threading.Lock()\n\ndef _db():\n    global _DB\n    while not _DB:\n        if _DB_CLAIM.acquire(False):\n            try:\n                if not _DB:\n                    _DB = load_data()\n            finally:\n                _DB_CLAIM.release()\n        else:\n            time.sleep(0.005)   # somebody else is loading\n    return _DB\n\ndef sportshall_score("),
+        (SP, "    global _DB # initialize on first call\n    if not _DB:\n        _DB = load_data()\n", "    _DB = _db() # initialize on first call\n")]),
     ('nc-explicit-state-rank-table', ['C02', 'C03', 'C08'], 'silent', [(HJ,
         "        if self.state!='scheduled':\n            raise RuleViolation(\"Cannot add jumpers in competition state %r\" % self.state)",
         "        if self.state in ('started','jumpoff','won','finished','drawn'):\n            raise RuleViolation(\"Cannot add jumpers in competition state %r\" % self.state)")]),
